@@ -172,7 +172,7 @@ def run_stage(ctx, case, faults=False):
     small = case.get('sizes', [1, 3])
     for lf in LEAVES:
         sizes[lf] = small[ctx.choice(f"n_cells[{lf}]", len(small))] \
-            if lf in case.get('vary', LEAVES) else 3
+            if lf in case.get('vary', LEAVES) else case.get('default_size', 3)
     stats = os.path.join(root, 'stats.h5')
     tree, prof = build_stats(stats, sizes)
     fixed = case.get('fixed', False)
